@@ -111,7 +111,7 @@ static void run_child(int d, long k, outcome *o) {
 		FILE *f = fopen(errfile, "r"); char line[400]; o->report[0] = 0; int have = 0;
 		if (f) { while (fgets(line, sizeof line, f)) { char *p;
 				if (!have && ((p = strstr(line, "ERROR: AddressSanitizer")) || (p = strstr(line, "runtime error")) || (p = strstr(line, "ERROR: LeakSanitizer")))) { snprintf(o->report, 300, "%s", p); have = 1; }
-				else if (have == 1 && (p = strstr(line, " in ")) && strstr(line, "/repo/src")) { size_t l = strlen(o->report); snprintf(o->report + l, sizeof o->report - l - 100, " | innermost relic frame:%s", p); have = 2; } }
+				else if (have == 1 && (p = strstr(line, " in ")) && strstr(line, "/src/") && strstr(line, "relic_")) { size_t l = strlen(o->report); snprintf(o->report + l, sizeof o->report - l - 100, " | innermost relic frame:%s", p); have = 2; } }
 			fclose(f); }
 		if (!o->report[0]) { char last[300] = ""; f = fopen(errfile, "r"); if (f) { while (fgets(line, sizeof line, f)) if (strlen(line) > 3) snprintf(last, sizeof last, "%s", line); fclose(f); } snprintf(o->report, sizeof o->report, "child died (wait status %d%s); last stderr line: %s", st, WIFSIGNALED(st) ? ", signal" : "", last); }
 		for (char *p = o->report; *p; p++) if (*p == '\n') *p = ' ';
